@@ -131,7 +131,7 @@ impl Prop for C10 {
                     retries,
                     plan,
                     st: state_for_entry(entry, idx % 512),
-                    mangle: if crate::models::fault::mangle_applies(entry.family()) || mangle == 5 { mangle } else { 0 },
+                    mangle: if entry.family() == Family::Unreal2 { [0, 5, 10][mangle as usize % 3] } else if crate::models::fault::mangle_applies(entry.family()) || mangle == 5 { mangle } else { 0 },
                 }
             })
             .boxed()
@@ -154,7 +154,7 @@ impl Prop for C10 {
         let it = combos.into_iter().enumerate().filter(move |(i, _)| i % nshards == shard).flat_map(|(_, (entry, unit, step, retries, k))| {
             let st = state_for_entry(&entry, k);
             // the realisation of "malformed" rotates with the state index where cut replies apply (0 = the fixed reply)
-            let mangle = if crate::models::fault::mangle_applies(entry.family()) { (k % 10) as u8 } else if k % 2 == 1 { 5 } else { 0 };
+            let mangle = if entry.family() == Family::Unreal2 { [0, 5, 10][(k % 3) as usize] } else if crate::models::fault::mangle_applies(entry.family()) { (k % 10) as u8 } else if k % 2 == 1 { 5 } else { 0 };
             plans(retries as usize + 2).into_iter().map(move |plan| {
                 Case {
                     entry: entry.clone(),
@@ -192,7 +192,7 @@ impl Prop for C10 {
         };
         let (mut faulty, flog) = Faulty::new(case.st.responder(), fam, case.unit, case.step, case.plan.clone());
         faulty.mangle = case.mangle;
-        if case.mangle == 5 { o.label("malformed=empty reply"); } else if case.mangle >= 6 { o.label(format!("malformed=valid reply with a byte inverted ({})", case.mangle)); } else if case.mangle != 0 { o.label(format!("malformed=valid reply cut short ({})", case.mangle)); }
+        if case.mangle == 10 { o.label("malformed=last datagram of a list (Unreal 2)"); } else if case.mangle == 5 { o.label("malformed=empty reply"); } else if case.mangle >= 6 { o.label(format!("malformed=valid reply with a byte inverted ({})", case.mangle)); } else if case.mangle != 0 { o.label(format!("malformed=valid reply cut short ({})", case.mangle)); }
         let run = run_scripted(Box::new(faulty), || case.entry.call_json(&ip, 27015, r));
         let flog = flog.borrow().clone();
         if std::env::var("GDV_TRACE").is_ok() {
@@ -203,6 +203,7 @@ impl Prop for C10 {
         o.nontrivial = eff.iter().any(|f| *f != Fault::Valid);
         if eff.iter().any(|f| *f == Fault::Malformed) { o.label("malformed-hit"); }
         if flog.partial_hits > 0 { o.label("partial-reply-hit"); }
+        if flog.tail_hits > 0 { o.label("malformed-last-datagram-hit"); }
         if eff.iter().filter(|f| f.timeout_class()).count() > r { o.label("all-attempts-time-out"); }
         // planned effective vector: what each attempt WOULD see (attempts beyond those made are unknown; use the plan)
         let planned = |i: usize| -> Fault { eff.get(i).copied().unwrap_or_else(|| case.plan.get(i).copied().unwrap_or(Fault::Valid)) };
@@ -248,7 +249,7 @@ impl Prop for C10 {
                 match &run.ended {
                     Ended::Err(k) if *k != GDErrorKind::PacketReceive && *k != GDErrorKind::PacketSend => {}
                     // a valid reply cut short may still be acceptable to the parser (e.g. only a trailing byte is missing)
-                    Ended::Ok(_) if case.mangle != 0 && case.mangle != 5 => {}
+                    Ended::Ok(_) if case.mangle != 0 && case.mangle != 5 && case.mangle != 10 => {}
                     other => {
                         o.fail(sig(&format!("malformed reply must fail with a parse-class error|{}", other.kind_str())), detail(json!({})));
                     }
